@@ -31,6 +31,8 @@ def declare(rep):
     rep.rule("C17.main-catches", "every statement of main that may throw lies inside try{...}catch(std::exception)", floor=1)
     rep.rule("C17.noexcept-escape", "no noexcept function on the start-up cone lets a callee's exception escape (=> std::terminate)", floor=40)
     rep.rule("C17.nullable-xml", "a pointer returned by a nullable tinyxml2 accessor is tested before dereference / std::string construction", floor=8)
+    rep.rule("C17.input-driven-loops", "every loop of the readers that appends to a container or writes through a subscript advances by consuming the input itself (regex_search / getline / iterator / XML sibling) or runs a fixed number of times - "
+             "never a number of times announced by the file without an exit on exhausted input - and subscript writes with a running index are bounded by the container's size", floor=6)
     rep.rule("C17.file-index", "in mesh_reader, subscripts / iterator offsets derived from file content are dominated by a bound check on that container", floor=4)
 
 
@@ -43,6 +45,7 @@ def run(rep, prog, tier):
     noexcept_escape(rep, prog, X, STARTUP_ROOTS, "C17.noexcept-escape")
     nullable_xml(rep, prog)
     file_index(rep, prog)
+    input_driven_loops(rep, prog)
 
 
 # ------------------------------------------------------------------------------------------
@@ -584,8 +587,33 @@ def file_index(rep, prog):
             cont_fields = {x["ref"].get("qn") for x in walk(cont) if x.get("k") == "MemberExpr"}
             ok = False
             wrap_note = ""
-            for cond, pol in fi.guards(n):
-                refs = {x["ref"]["did"] for x in walk(cond) if x.get("k") == "DeclRefExpr"}
+            from ..model import expand as _expand
+            # variables that a dominating condition relates to the size of this container (aliases of the size through const locals
+            # are looked through): an index compared with such a variable is bounded through it (one step of transitivity)
+            anchored = set()
+            glist = []
+            for cond0, pol in fi.guards(n):
+                cond = _expand(fn, cond0)
+                from ..model import def_chain as _dc
+                refs0 = {x["ref"]["did"] for d__ in _dc(fn, cond0, depth=4) for x in walk(d__) if x.get("k") == "DeclRefExpr"}      # through const locals
+                anch = False
+                for x in walk(cond):
+                    if x.get("k") == "CXXMemberCallExpr" and x.get("callee", "").split("::")[-1] in ("size", "end", "cend", "empty"):
+                        o = call_obj(x)
+                        if o is not None:
+                            oid = {y["ref"]["did"] for y in walk(o) if y.get("k") == "DeclRefExpr"}
+                            of = {y["ref"].get("qn") for y in walk(o) if y.get("k") == "MemberExpr"}
+                            if (oid & cont_ids) or (of & cont_fields and of):
+                                anch = True
+                glist.append((cond0, cond, pol, refs0, anch))
+                if anch:
+                    anchored |= refs0
+            for cond0, cond, pol, refs0, anch in glist:
+                if not anch and idx is not None and (names & refs0) and (refs0 & anchored) - names and not wraps_in_32bit(fn, cond0, tainted):
+                    if any(x.get("k") == "BinaryOperator" and x.get("op") in ("<", "<=", "!=", ">", ">=") for x in walk(cond0)):
+                        ok = True
+            for cond, pol in ([] if ok else [(g[1], g[2]) for g in glist]):
+                refs = {x["ref"]["did"] for x in walk(cond) if x.get("k") == "DeclRefExpr"} | {d for g in glist if g[1] is cond for d in g[3]}
                 if wraps_in_32bit(fn, cond, tainted) or any(d in wrapped_locals(fn, tainted) for d in (names & refs)):
                     wrap_note = " (a condition relating it to the container size exists but computes with the file value in 32-bit arithmetic, which wraps for large values)"
                     continue
@@ -617,6 +645,8 @@ def file_index(rep, prog):
                                     if o.get("k") == "IntegerLiteral" and str(o.get("v")) == "0" and x["op"] in ("<", ">=", ">", "<="):
                                         nonneg = True
                 if not nonneg:
+                    nonneg = all(_nonneg_by_definitions(prog, fn, fi, d_, 0) for d_ in names)
+                if not nonneg:
                     rep.violation("C17.file-index", prog, fn, n, "negative %s not excluded" % re.sub(r"#\d+", "", what),
                                   "%s: the index (%s, signed) is compared with the container size in signed arithmetic and no test excludes negative values: a negative id parsed from the input file passes the check and reads before the start of the container" % (what, ", ".join(sorted(tainted[d] for d in names))))
                     continue
@@ -638,3 +668,121 @@ def file_index(rep, prog):
                 rep.violation("C17.file-index", prog, fn, n, "unchecked %s" % re.sub(r"#\d+", "", what),
                               "%s uses a value parsed from the input mesh file (%s) and no dominating condition relates it to the size of the indexed container: a face list that references non-existent points / an empty record reads out of bounds instead of raising mesh_reader_exception"
                               % (what, (", ".join(sorted(tainted[d] for d in names)) or "record may be empty") + wrap_note))
+
+
+def _nonneg_by_definitions(prog, fn, fi, did, depth):
+    """A signed index variable cannot be negative if every value it is ever given is: a non-negative literal; a non-negative
+    variable plus a non-negative literal (or ++); or a value that a dominating, exiting check compares with a size in UNSIGNED
+    arithmetic (a negative value converts to a huge one and is rejected by that very check)."""
+    if depth > 3:
+        return False
+    defs = []
+    for n in walk(fn["body"]):
+        if n.get("k") == "Var" and n.get("did") == did and isinstance(n.get("init"), dict):
+            defs.append((n, n["init"]))
+        elif n.get("k") == "BinaryOperator" and n.get("op") == "=" and strip(n["c"][0]).get("k") == "DeclRefExpr" and strip(n["c"][0])["ref"].get("did") == did:
+            defs.append((n, n["c"][1]))
+        elif n.get("k") == "CompoundAssignOperator" and strip(n["c"][0]).get("k") == "DeclRefExpr" and strip(n["c"][0])["ref"].get("did") == did:
+            if n.get("op") != "+=":
+                return False
+            defs.append((n, n["c"][1]))
+        elif n.get("k") == "UnaryOperator" and "--" in n.get("op", "") and strip(n["c"][0]).get("k") == "DeclRefExpr" and strip(n["c"][0])["ref"].get("did") == did:
+            return False
+    if not defs:
+        return False
+
+    def nn(e, site):
+        e = strip(e)
+        k = e.get("k")
+        if k == "IntegerLiteral":
+            return int(e.get("v", "-1")) >= 0
+        if k in ("CXXStaticCastExpr", "CStyleCastExpr", "CXXFunctionalCastExpr", "ParenExpr") and e.get("c"):
+            if "unsigned" in (strip(e["c"][0]).get("t") or "") or "size_t" in (strip(e["c"][0]).get("t") or ""):
+                return True
+            return nn(e["c"][0], site)
+        if k == "CXXMemberCallExpr" and e.get("callee", "").split("::")[-1] in ("size", "length"):
+            return True
+        if "unsigned" in (e.get("t") or ""):
+            return True
+        if k == "BinaryOperator" and e.get("op") == "+":
+            return nn(e["c"][0], site) and nn(e["c"][1], site)
+        if k == "DeclRefExpr" and e["ref"].get("dk") == "Var":
+            v = e["ref"]["did"]
+            # validated in unsigned arithmetic by a dominating exiting check?
+            for cond, pol in fi.guards(site):
+                for x in walk(cond):
+                    if x.get("k") == "BinaryOperator" and x.get("op") in ("<", "<=", ">", ">="):
+                        for side, other in ((x["c"][0], x["c"][1]), (x["c"][1], x["c"][0])):
+                            if any(y.get("k") == "DeclRefExpr" and y["ref"].get("did") == v for y in walk(side)) and ("unsigned" in (side.get("t") or "") or "size_t" in (side.get("t") or "") or "unsigned" in (strip(side).get("t") or "")):
+                                return True
+            return v == did or _nonneg_by_definitions(prog, fn, fi, v, depth + 1)
+        return False
+    return all(nn(e, site) for site, e in defs)
+
+
+PARSE_CALLS = ("std::stoi", "std::stol", "std::stoll", "std::stoul", "std::stoull", "std::stod", "std::stof", "atoi", "std::atoi", "atol", "std::atol", "strtol", "std::strtol", "strtoul", "std::strtoul")
+
+
+def input_driven_loops(rep, prog):
+    from ..model import def_chain
+    rule = "C17.input-driven-loops"
+    for fn in product_fns(prog):
+        if fn.get("cls") not in ("mesh_reader", "parameter_reader", "simulation_initializer") or not isinstance(fn.get("body"), dict):
+            continue
+        fi = prog.index(fn)
+        # variables filled by stream extraction: their value is whatever the file says
+        extracted = set()
+        for x in walk(fn["body"]):
+            if x.get("k") == "CXXOperatorCallExpr" and x.get("op") == ">>" and len(x.get("c", [])) >= 3:
+                t = strip(x["c"][2])
+                if t.get("k") == "DeclRefExpr":
+                    extracted.add(t["ref"].get("did"))
+        for l in walk(fn["body"]):
+            if l.get("k") not in ("ForStmt", "WhileStmt", "DoStmt"):
+                continue
+            body = l.get("body") or {}
+            grows = [x for x in walk(body) if x.get("k") == "CXXMemberCallExpr" and x.get("callee", "").split("::")[-1] in ("push_back", "emplace_back", "insert", "resize") and "std::" in x.get("callee", "")]
+            writes = []
+            for x in walk(body):
+                if x.get("k") in ("BinaryOperator", "CompoundAssignOperator", "CXXOperatorCallExpr") and (x.get("op") == "=" or x.get("k") == "CompoundAssignOperator"):
+                    lhs = strip(x["c"][0] if x["k"] != "CXXOperatorCallExpr" else x["c"][1]) if x.get("c") else {}
+                    if lhs.get("k") == "CXXOperatorCallExpr" and lhs.get("op") == "[]" and "std::vector" in (lhs.get("callee") or ""):
+                        writes.append((x, lhs))
+            if not grows and not writes:
+                continue
+            cond = l.get("cond") or {}
+            announced = None
+            for d_ in def_chain(fn, cond, depth=6):
+                for y in walk(d_):
+                    if y.get("k") == "CallExpr" and y.get("callee") in PARSE_CALLS:
+                        announced = announced or ("%s at line %s" % (y["callee"], y.get("l")))
+                    if y.get("k") == "DeclRefExpr" and y["ref"].get("did") in extracted:
+                        announced = announced or ("'%s', read from the file with operator>>" % y["ref"]["name"])
+            exits = [x for x in walk(body, into_lambdas=False) if x.get("k") in ("BreakStmt", "ReturnStmt", "CXXThrowExpr") and fi.enclosing(x, ("IfStmt",)) is not None and any(p_ is l for p_, _s, _c in fi.ancestors(x))]
+            bad = None
+            if announced and grows and not exits:
+                bad = ("loop runs a number of times announced by the file", "%s: the loop '%s' runs as many times as %s says and %s in every pass, without leaving the loop when the input is exhausted: a few bytes announcing a huge count make the "
+                       "reader iterate and allocate in proportion to that number, not to the size of the file" % (fn["qn"], short(cond, 50), announced, short(grows[0], 40)))
+            for w, lhs in writes:
+                idx = strip(lhs["c"][2])
+                running = [y for y in walk(idx) if y.get("k") == "UnaryOperator" and ("++" in y.get("op", "") or "--" in y.get("op", ""))]
+                ivars = {y["ref"].get("did"): y["ref"]["name"] for y in walk(idx) if y.get("k") == "DeclRefExpr" and y["ref"].get("dk") == "Var"}
+                # the loop's own induction variable compared with the container's size in the loop condition is a bound
+                bounded = False
+                vec_txt = render(lhs["c"][1]).replace(" ", "")
+                for c_, pol in [(cond, True)] + list(fi.guards(w)):
+                    if pol:
+                        for y in walk(c_):
+                            if y.get("k") == "BinaryOperator" and y.get("op") in ("<", "<=", "!=", ">", ">="):
+                                t_ = render(y).replace(" ", "")
+                                if any(nm.split("#")[0] in t_ for nm in ivars.values()) and (vec_txt + ".size()" in t_ or any(vec_txt in render(d2).replace(" ", "") for d2 in def_chain(fn, y, depth=4) if d2 is not y)):
+                                    bounded = True
+                if (running or ivars) and not bounded and announced is None and not any(render(strip(cond)).startswith(("(" + nm.split("#")[0], nm.split("#")[0])) for nm in ivars.values()):
+                    bad = bad or ("subscript write with an unbounded running index", "%s: %s writes element %s of a vector inside the loop '%s', whose number of passes is decided by the file content, and nothing compares the index with the size of the vector: "
+                                  "a file with more values than announced writes past the end of the buffer" % (fn["qn"], short(w, 60), short(idx, 30), short(cond, 50)))
+                elif (running or ivars) and not bounded and announced is not None:
+                    bad = bad or ("subscript write bounded only by a count announced by the file", "%s: %s inside a loop bounded by %s" % (fn["qn"], short(w, 60), announced))
+            if bad:
+                rep.violation(rule, prog, fn, l, bad[0], bad[1])
+            else:
+                rep.ok(rule, prog, fn, l, "loop '%s': %s" % (short(cond, 50), "advances by consuming the input / fixed bound" if not announced else "bounded by an announced count but leaves on exhausted input"))
